@@ -66,7 +66,7 @@ BOUNDS = {
              '@no_kwargs mixing: multisets of 2-3 of 5 @no_kwargs shapes [*r:Rule, (), x:Any, x:A, (x,y)] and 5 ordinary shapes '
              '[(), x:Any, x:A, (x:Any, y:A=default), (x,y)] with at least one @no_kwargs x 11 calls (empty, positional, k => v, '
              'unknown keyword) x all orders x {list, set, text}; '
-             'shared callable: multisets of 2-3 definitions (type x kind) made from one python function, values a b d, both syntaxes, all orders x {list, set}; MultiContext exclusivity: 1-2 overloads per member typed over Any A B C D, exclusive flags (T,F) (F,T) (T,T), parent overload Any|Lazy, values b d, both member orders x all enumeration orders; one plain layer: 2-3 overloads typed over Any A B C D registered with every mix of exclusive flags (at least one True) in every registration order, parent overload Any|Lazy, values b d',
+             'shared callable: multisets of 2-3 definitions (type x kind) made from one python function, values a b d, both syntaxes, all orders x {list, set}, and two such definitions next to a third with a callable of its own; MultiContext exclusivity: 1-2 overloads per member typed over Any A B C D, exclusive flags (T,F) (F,T) (T,T), parent overload Any|Lazy, values b d, both member orders x all enumeration orders; one plain layer: 2-3 overloads typed over Any A B C D registered with every mix of exclusive flags (at least one True) in every registration order, parent overload Any|Lazy, values b d',
     'thorough': 'as quick plus MultiContext splits for every family of quick, method syntax for 2 parameters n = 3, '
                 'all 11 value pairs containing e with lazy signatures, and 2 parameters n = 4: all sets of 4 distinct eager signatures '
                 'for the value pairs over {d, null}, multisets of 4 for (d, d) (list and set drivers, all spellings)',
@@ -397,6 +397,30 @@ def job_shared(tier):
     return res
 
 
+# two definitions sharing one python callable next to a third definition with a callable of its own
+def job_shared_mixed(tier):
+    res = Result()
+    drivers = ('list', 'set')
+    for v in ('a', 'b', 'd'):
+        ts = types_for(v)[:-1]
+        for t1, t2 in itertools.combinations_with_replacement(ts, 2):
+            for t3 in ts:
+                for kind in ('function', 'ext'):
+                    fam = ((t1, kind), (t2, kind))
+                    own = ('o', (P('x', 'pos', t3),), kind, False)
+                    ovs = tuple(('s', (P('x', 'pos', t),), k, False) for t, k in fam) + (own,)
+                    fds = [shared_definition(i, t, k) for i, (t, k) in enumerate(fam)] + [R.definition(own, R.CLASSES6)]
+                    for method in ((False, True) if kind == 'ext' else (False,)):
+                        call = call_for((v,), method)
+                        res.case(('shared-mixed', v, fam, t3, method))
+                        obs = observe_orders(ovs, call, drivers, fds=fds)
+                        verdict(res, obs, ((False, ovs),), call, drivers,
+                                'two definitions sharing one python callable next to a definition of its own',
+                                {'shared_mixed': [list(fam), t3, kind], 'value': v, 'method': method, 'drivers': sorted(drivers)},
+                                (3, 1, method, False, sum(ORDER.index(t) for t in (t1, t2, t3)), v))
+    return res
+
+
 # a MultiContext layer with an exclusive member above a parent layer that competes
 def multi_exclusive_families():
     for v in ('b', 'd'):
@@ -493,7 +517,7 @@ def job(tier, k, of):
 def jobs(tier, seed):
     of = 32 if tier == 'quick' else 64
     return ([('families-%02d' % k, 'job', (tier, k, of)) for k in range(of)] +
-            [('mixed-no-kwargs', 'job_mixed', (tier,)), ('shared-payload', 'job_shared', (tier,)),
+            [('mixed-no-kwargs', 'job_mixed', (tier,)), ('shared-payload', 'job_shared', (tier,)), ('shared-mixed', 'job_shared_mixed', (tier,)),
              ('multi-exclusive', 'job_multi_exclusive', (tier,)), ('plain-exclusive', 'job_plain_exclusive', (tier,))])
 
 
@@ -512,6 +536,14 @@ def replay(case):
         layers, call = ((False, ovs),), call_for((case['value'],), case['method'])
         obs = observe_orders(ovs, call, set(case['drivers']),
                              fds=[shared_definition(i, t, kind) for i, (t, kind) in enumerate(fam)])
+    elif 'shared_mixed' in case:
+        fam, t3, kind = case['shared_mixed']
+        fam = tuple(tuple(x) for x in fam)
+        own = ('o', (P('x', 'pos', t3),), kind, False)
+        ovs = tuple(('s', (P('x', 'pos', t),), k, False) for t, k in fam) + (own,)
+        layers, call = ((False, ovs),), call_for((case['value'],), case['method'])
+        obs = observe_orders(ovs, call, set(case['drivers']),
+                             fds=[shared_definition(i, t, k) for i, (t, k) in enumerate(fam)] + [R.definition(own, R.CLASSES6)])
     elif 'multi_exclusive' in case:
         obs, layers, call = observe_multi_exclusive(*_tuples(case['multi_exclusive']))
     elif 'plain_exclusive' in case:
